@@ -111,6 +111,10 @@ func isNilIdent(info *types.Info, e ast.Expr) bool {
 // nilCompare decomposes `x == nil` / `x != nil` facts: returns x and whether the fact says x is nil.
 func nilCompare(info *types.Info, f cfgx.Fact) (ast.Expr, bool, bool) {
 	if f.Tag != nil {
+		// switch x { case nil: … }: on the case edge x is nil; on the edges that exclude the case it is not
+		if isNilIdent(info, f.Expr) {
+			return f.Tag, f.Val, true
+		}
 		return nil, false, false
 	}
 	be, ok := ast.Unparen(f.Expr).(*ast.BinaryExpr)
@@ -914,7 +918,7 @@ func (c *Ctx) errorDisciplineOn(rule, fname string, info *types.Info, g *cfgx.Gr
 						continue
 					}
 					for k, e := range v.Succ {
-						if e.Tag != nil || !g.EdgeDominates(e, st.v) {
+						if !g.EdgeDominates(e, st.v) {
 							continue
 						}
 						// stale: the variable is redefined between this edge and the site
@@ -929,7 +933,7 @@ func (c *Ctx) errorDisciplineOn(rule, fname string, info *types.Info, g *cfgx.Gr
 						if stale {
 							continue
 						}
-						for _, f := range cfgx.ExpandCond(e.Cond, e.Val) {
+						for _, f := range e.Facts() {
 							x, isNil, ok := nilCompare(info, f)
 							if !ok {
 								continue
@@ -1336,4 +1340,96 @@ func derefType(t types.Type) types.Type {
 		return p.Elem()
 	}
 	return t
+}
+
+// readOnlyAlias: `p := &<expr>` where every other mention of p in fi selects a field of it in read position (never on the
+// left of an assignment, never the operand of ++/--, & or a call argument as such).
+func (c *Ctx) readOnlyAlias(fi *load.FuncInfo, addr *ast.UnaryExpr) bool {
+	info := fi.Info()
+	var local types.Object
+	ast.Inspect(fi.Body(), func(n ast.Node) bool {
+		if as, ok := n.(*ast.AssignStmt); ok && len(as.Lhs) == 1 && len(as.Rhs) == 1 && ast.Unparen(as.Rhs[0]) == ast.Expr(addr) {
+			if id, ok := as.Lhs[0].(*ast.Ident); ok {
+				local = astx.Obj(info, id)
+			}
+		}
+		return true
+	})
+	if local == nil {
+		return false
+	}
+	ok := true
+	parents := map[ast.Node]ast.Node{}
+	var stack []ast.Node
+	ast.Inspect(fi.Body(), func(n ast.Node) bool {
+		if n == nil {
+			stack = stack[:len(stack)-1]
+			return true
+		}
+		if len(stack) > 0 {
+			parents[n] = stack[len(stack)-1]
+		}
+		stack = append(stack, n)
+		return true
+	})
+	ast.Inspect(fi.Body(), func(n ast.Node) bool {
+		id, isID := n.(*ast.Ident)
+		if !isID || astx.Obj(info, id) != local {
+			return true
+		}
+		p := parents[id]
+		if as, isAs := p.(*ast.AssignStmt); isAs {
+			for _, l := range as.Lhs {
+				if l == ast.Expr(id) {
+					return true // the defining assignment
+				}
+			}
+		}
+		se, isSel := p.(*ast.SelectorExpr)
+		if !isSel || se.X != ast.Expr(id) {
+			ok = false
+			return true
+		}
+		// climb: selector / index chains; then the chain must not be written
+		var top ast.Node = se
+		for {
+			pp := parents[top]
+			switch x := pp.(type) {
+			case *ast.SelectorExpr:
+				if x.X == top {
+					top = x
+					continue
+				}
+			case *ast.IndexExpr:
+				if x.X == top {
+					top = x
+					continue
+				}
+			case *ast.ParenExpr:
+				top = x
+				continue
+			}
+			break
+		}
+		switch x := parents[top].(type) {
+		case *ast.AssignStmt:
+			for _, l := range x.Lhs {
+				if l == top {
+					ok = false
+				}
+			}
+		case *ast.IncDecStmt:
+			ok = false
+		case *ast.UnaryExpr:
+			if x.Op == token.AND {
+				ok = false
+			}
+		case *ast.CallExpr:
+			if b := astx.Builtin(info, x); b == "delete" || b == "append" && len(x.Args) > 0 && x.Args[0] == top {
+				ok = false
+			}
+		}
+		return true
+	})
+	return ok
 }
